@@ -12,6 +12,7 @@ direct oracle.  Line protocol (one request per line, one answer per line unless 
   L <hex name> <mod> <rem> <rcfail> <tmode> <toff> <tlen> <hex traw> <lrc> <lmode> <sane>
   env <hex bufgarbage> <hex pwgarbage> <pwhit: none | <hex title|none> <hex fname>>
   info <hex name> <hex type> | info null
+  post <prep> <scan>                 observed return values of libxmp_prepare_scan / libxmp_scan_sequences (-99: not called)
   run <hex data>                     → test <rc> <hex name|null> <hex type|null>
                                        load <rc> <recognized 0|1> <hex name|-> <hex fmt|->
   wrap <kind> <arg> <decr> <hex data> → wtest <rc> <hex name|null> <hex type|null> <closedCaller 0|1> <libClosed n>
@@ -68,7 +69,7 @@ structure Spec where
   lmode : Nat
   sane : Bool
 
-def Spec.toLoader (sp : Spec) : Loader where
+def Spec.toLoader (sp : Spec) (prep scan : Int) : Loader where
   name := sp.name
   test := fun s want =>
     let (b, s1) := s.read 1
@@ -91,17 +92,21 @@ def Spec.toLoader (sp : Spec) : Loader where
       if sp.lmode == 0 then strncpyBuf name0 (raw ++ [0]) n
       else if sp.lmode == 1 then overlay (copyAdjustBuf (raw ++ [0]) raw.length) name0
       else name0
-    { rc := sp.lrc, name := name, sane := sp.sane }
+    { rc := sp.lrc, name := name, sane := sp.sane, prep := if prep == -99 then 0 else prep,
+      scan := if scan == -99 then 0 else scan }
 
 structure St where
   specs : Array Spec := #[]
+  /-- observed return values of libxmp_prepare_scan / libxmp_scan_sequences (-99: not called) -/
+  prep : Int := 0
+  scan : Int := 0
   bufG : Bytes := []
   pwG : Bytes := []
   pw : Option PwHit := none
   info : Option Info := none
 
 def St.env (st : St) : Env :=
-  { loaders := st.specs.toList.map Spec.toLoader, pw := fun _ => st.pw, bufGarbage := st.bufG, pwGarbage := st.pwG }
+  { loaders := st.specs.toList.map (fun sp => sp.toLoader st.prep st.scan), pw := fun _ => st.pw, bufGarbage := st.bufG, pwGarbage := st.pwG }
 
 def parseDecr (s : String) : Decr :=
   if s == "np" then .notPacked else if s == "fail" then .fail
@@ -154,13 +159,14 @@ partial def loop (h : IO.FS.Stream) (st : St) : IO Unit := do
   | ["L", name, m, r, rcf, tmode, toff, tlen, traw, lrc, lmode, sane] =>
     let sp : Spec := { name := parseHex name, mod := m.toNat?.getD 1, rem := r.toNat?.getD 0, rcfail := rcf.toInt?.getD (-1),
                        tmode := tmode.toNat?.getD 0, toff := toff.toNat?.getD 0, tlen := tlen.toInt?.getD 0,
-                       traw := parseHex traw, lrc := lrc.toInt?.getD 0, lmode := lmode.toNat?.getD 0, sane := sane == "1" }
+                       traw := parseHex traw, lrc := lrc.toInt?.getD 0, lmode := lmode.toNat?.getD 0, sane := sane != "0" }
     loop h { st with specs := st.specs.push sp }
   | "env" :: bg :: pg :: rest =>
     let pw := match rest with
       | [t, f] => some { title := if t == "none" then none else some (parseHex t), fname := parseHex f : PwHit }
       | _ => none
     loop h { st with bufG := parseHex bg, pwG := parseHex pg, pw := pw }
+  | ["post", p, sc] => loop h { st with prep := p.toInt?.getD 0, scan := sc.toInt?.getD 0 }
   | ["info", "null"] => loop h { st with info := none }
   | ["info", n, t] => loop h { st with info := some { name := parseHex n, type := parseHex t } }
   | ["run", d] =>
